@@ -98,7 +98,7 @@ PLAN = {
         "level_note": "Trusted: pyvc encoder; library models (event alphabets, which calls raise); byte-level parsing is the libraries' own. Known findings are excluded by obligation+path and demonstrated natively.",
     },
     "C09": {
-        "units": [HP + m for m in ("send_task", "_send_data", "_window_updated", "_priority_updated", "stream_send", "_create_stream")] + [SB + "pop", SB + "complete"],
+        "units": [HP + m for m in ("send_task", "_send_data", "_window_updated", "_priority_updated", "stream_send", "_create_stream", "_handle_events")] + [SB + "pop", SB + "complete"],
         "trusted_base": LIB_H2,
         "assumptions": COMMON_ASSUME + ["scheduler fairness for 'as soon as the windows permit'"],
         "explanation": "flow control respected (precondition of send_data), per-stream FIFO, invariants I1/I2 that keep the send task alive",
